@@ -612,6 +612,35 @@ def main_steps(case):
     return case["defs"][0]["steps"]
 
 
+def prune(case):
+    """drop Functions and sub-workflows no longer referenced from the main workflow"""
+    c = copy.deepcopy(case)
+    by_name = {w["name"]: w for w in c["defs"]}
+    used_wf, used_fn, todo = set(), set(), [c["main"]]
+    while todo:
+        name = todo.pop()
+        if name in used_wf or name not in by_name:
+            continue
+        used_wf.add(name)
+        for s in by_name[name]["steps"]:
+            lg = s["logic"]
+            targets = [lg["ref"]] if "ref" in lg else [t for _, t in lg["switch"]["cases"]]
+            for t in targets:
+                if "fn" in t:
+                    used_fn.add(t["fn"])
+                else:
+                    todo.append(t["wf"])
+    c["defs"] = [w for w in c["defs"] if w["name"] in used_wf]
+    c["fns"] = {k: f for k, f in c["fns"].items() if k in used_fn}
+    return c
+
+
+def drop_step(case, i):
+    c = copy.deepcopy(case)
+    del c["defs"][0]["steps"][i]
+    return c
+
+
 def shrink_candidates(case):
     """smaller cases: drop a suffix of the main workflow's steps (keeps it well-formed)"""
     steps = main_steps(case)
